@@ -19,7 +19,7 @@ pub fn plan() -> Plan {
         meta: Meta {
             property: "C08",
             level: "exploration",
-            rule: "history + executable model under real concurrency. N client tasks (8..4000) run puts, deletes, reads and contains on few keys (4..16) against one Storage while a maintenance task closes/creates/restores the active blob, forces updates and requests dumps, blobs rotate by a tiny record limit, and H1 delays are injected inside I/O closures. Every client call is logged at the client boundary: invoke(seq) before, return(seq, result) after, seq from one global atomic counter; every write gets a globally unique increasing timestamp and unique value bytes, so each key is a max-register with unique values. Per-key checker (P-compositional, O(n log n)): a completed read/contains must (1) return a value that was written to that key by an operation invoked before the read returned (byte equality), (2) be no older than every write/delete acknowledged before the read was invoked, (3) never go backwards with respect to reads that returned before it was invoked; a share of runs uses tied timestamps with the weaker rule 'value among the candidates with an acceptable timestamp'. At quiescence (all clients done + worker barrier) read/contains of every key equal the max-timestamp acknowledged operation, and - judged after the close against the independently parsed files - the record that is rank-first on disk (timestamp, then blob id, then position: with tied timestamps of concurrent writers the in-memory order must be the file order); after close every blob file is parsed independently: records contiguous to EOF, header and data checksums valid, blob_offset == position, and the multiset of puts on disk == the multiset of acknowledged puts (no loss, no duplication, no interleaving), and blobs_count() / records_count() taken at quiescence equal the number of blob files / records in them. Deadlock monitor (timing-free): 'client operations pending, no operation completed, zero I/O in flight and no file operation during >=160 samples over 8 s' is reported as a deadlock with the pending operations. Non-trivial = run with >=2 blobs or >=64 clients; distinct = hash of the per-key completion order (distinct interleavings observed).",
+            rule: "history + executable model under real concurrency. N client tasks (8..4000) run puts, deletes, reads and contains on few keys (4..16) against one Storage while a maintenance task closes/creates/restores the active blob, forces updates and requests dumps, blobs rotate by a tiny record limit, and H1 delays are injected inside I/O closures. Every client call is logged at the client boundary: invoke(seq) before, return(seq, result) after, seq from one global atomic counter; every write gets a globally unique increasing timestamp and unique value bytes, so each key is a max-register with unique values. Per-key checker (P-compositional, O(n log n)): a completed read/contains must (1) return a value that was written to that key by an operation invoked before the read returned (byte equality), (2) be no older than every write/delete acknowledged before the read was invoked, (3) never go backwards with respect to reads that returned before it was invoked; (4) a filter probe (check_filters / BloomProvider::check_filter) of a key with a put acknowledged before the probe was invoked never answers 'definitely absent'; a share of runs uses tied timestamps with the weaker rule 'value among the candidates with an acceptable timestamp'. At quiescence (all clients done + worker barrier) read/contains of every key equal the max-timestamp acknowledged operation, and - judged after the close against the independently parsed files - the record that is rank-first on disk (timestamp, then blob id, then position: with tied timestamps of concurrent writers the in-memory order must be the file order); after close every blob file is parsed independently: records contiguous to EOF, header and data checksums valid, blob_offset == position, and the multiset of puts on disk == the multiset of acknowledged puts (no loss, no duplication, no interleaving), and blobs_count() / records_count() taken at quiescence equal the number of blob files / records in them. Deadlock monitor (timing-free): 'client operations pending, no operation completed, zero I/O in flight and no file operation during >=160 samples over 8 s' is reported as a deadlock with the pending operations. Non-trivial = run with >=2 blobs or >=64 clients; distinct = hash of the per-key completion order (distinct interleavings observed).",
             assumptions: vec!["schedules are those the OS and tokio produced in this run, widened by injected delays; counted, not enumerated", "TSan/ASan builds of the same workload are part of the thorough tier (tools/san.sh)"],
         },
         shards: 16,
@@ -164,6 +164,25 @@ async fn client(s: Arc<Storage<ArrayKey<8>>>, sh: Arc<Shared>, rc: RunCfg, id: u
             sh.current[id].store(0, Ordering::SeqCst);
             sh.accounting_calls.fetch_add(1, Ordering::SeqCst);
         }
+        // now and then a filter probe of the key (judged: a key with an acknowledged put is never "definitely absent")
+        if !rc.overfull_probe && rng.chance(1, 8) {
+            let mut f = OpRec { client: id as u32, kind: 4, key, ts: 0, val: 0, size: 0, inv: 0, ret: 0, res: 1, obs_ts: 0, obs_val: 0, obs_ok_bytes: true, err: false };
+            f.inv = sh.seq.fetch_add(1, Ordering::SeqCst);
+            sh.current[id].store(f.inv + 1, Ordering::SeqCst);
+            if rng.chance(1, 2) {
+                if s.check_filters(k.clone()).await == Some(false) {
+                    f.res = 0;
+                }
+            } else {
+                f.obs_ts = 1;
+                if pearl::BloomProvider::check_filter(&*s, &k).await == pearl::FilterResult::NotContains {
+                    f.res = 0;
+                }
+            }
+            f.ret = sh.seq.fetch_add(1, Ordering::SeqCst);
+            sh.current[id].store(0, Ordering::SeqCst);
+            out.push(f);
+        }
         match kind {
             0 => {
                 r.ts = if rc.tied { rng.range(1, 3) } else { sh.ts.fetch_add(1, Ordering::SeqCst) };
@@ -258,7 +277,13 @@ fn check_history(ops: &[OpRec], tied: bool) -> (Option<(String, String)>, u64, u
         // acknowledged mutations sorted by return
         let mut acked: Vec<(u64, u64)> = muts.iter().map(|o| (o.ret, o.ts)).collect();
         acked.sort();
-        let mut reads: Vec<&&OpRec> = kops.iter().filter(|o| o.kind >= 2 && !o.err).collect();
+        // kind 4 = filter probe: "definitely absent" for a key with a put acknowledged before the probe began
+        for f in kops.iter().filter(|o| o.kind == 4 && o.res == 0) {
+            if let Some(w) = muts.iter().find(|w| w.kind == 0 && w.ret < f.inv) {
+                return (Some(("filter-false-negative-under-concurrency".into(), format!("{}(k{}) answered 'definitely absent' (invoked at {}) although the put of value {:#x} to that key had been acknowledged at {}", if f.obs_ts == 0 { "check_filters" } else { "BloomProvider::check_filter" }, key, f.inv, w.val, w.ret))), reads_checked, interleaving);
+            }
+        }
+        let mut reads: Vec<&&OpRec> = kops.iter().filter(|o| (o.kind == 2 || o.kind == 3) && !o.err).collect();
         reads.sort_by_key(|o| o.inv);
         // completion order hash = the interleaving observed on this key
         let mut comp: Vec<(u64, u32, u8)> = kops.iter().map(|o| (o.ret, o.client, o.kind)).collect();
